@@ -234,6 +234,12 @@ def snap_motl(df):
             "cls": g("class")}
 
 
+def snap_take(snap, order):
+    """the particles `order` (positions) of a snapshot, in that order"""
+    order = np.asarray(order, dtype=int)
+    return {k: (v[order] if isinstance(v, np.ndarray) else len(order)) for k, v in snap.items()}
+
+
 def _vec_mismatch(clause, got, exp, tol_abs, tol_rel=1e-12, labels=None):
     got, exp = np.asarray(got, float), np.asarray(exp, float)
     if got.shape != exp.shape:
